@@ -22,6 +22,7 @@ RULE = ('cases = one segment (all four types; self-intersecting cubics; arcs wit
         'from {0, 1, dyadic, random, nearly equal}, or one path (T at joints, wrap-around crops of closed paths, very unequal '
         'segment lengths, retraced equal segments); every reversed/split/cropped result is compared pointwise with the original '
         'under the documented parameter map; distinct by spec + parameters; non-trivial if an oracle verdict was reached')
+RULE += '; reversed() after the path has answered queries, judged through the path parameter; cropped arcs rebuilt from their own fields; reversed()/cropped() of pieces'
 ASSUMPTIONS = ['the original object\'s own point() is the reference curve (its correctness is C03/C04\'s subject)',
                'arc results are compared to 1e-6*size (theta/delta come from acos, sqrt(eps)-conditioned; see C04), Bezier results to 1e-9*size, '
                'interior Bezier crops (re-located by radialrange) to 1e-7*size',
